@@ -7,6 +7,7 @@ import (
 	"github.com/shpandrak/shpanstream/stream"
 	"github.com/shpandrak/shpanstream/utils/timeseries"
 	"github.com/shpandrak/shpanstream/utils/timeseries/tsquery"
+	"slices"
 	"time"
 )
 
@@ -110,7 +111,8 @@ func (mds JoinDatasource) Execute(ctx context.Context, from time.Time, to time.T
 		joinedStreams = timeseries.LeftJoinStreams[[]any, []any](
 			sourceStreams,
 			func(left []any, others []*[]any) []any {
-				ret := left
+				// Clip before appending so that the left source's row slice is never written to (spare capacity)
+				ret := slices.Clip(left)
 				for i, currOther := range others {
 					if currOther != nil {
 						ret = append(ret, *currOther...)
